@@ -119,6 +119,17 @@ def stepLine (s : DSt) (ws : List String) : DSt × List String :=
           if c < 65536 then let r := encodeClose w c bs; ({ s with ws := some r.ws }, [showEnc r])
           else bad
         | _, _ => bad
+      | ["state"] =>
+        let dn := match w.dataBuf with
+          | none => 0
+          | some _ => if w.step = 17 then w.dataStart + w.payloadIndex else w.dataSize
+        let cn := if w.step = 18 then w.payloadIndex else 0
+        let showBuf (b : Option (List UInt8)) (n : Nat) : String := match b with
+          | none => "null"
+          | some bs => hexOfBytes (bs.take n)
+        (s, [s!"s step={w.step} v={w.validity} du={w.dataUtf8} cu={w.ctrlUtf8} dt={w.dataType} hs={w.hdrSize} " ++
+             s!"ds={w.dataSize} ps={w.payloadSize} pi={w.payloadIndex} mask={hexOfBytes w.maskKey} " ++
+             s!"hdr={hexOfBytes (w.hdr.take w.hdrSize)} data={showBuf w.dataBuf dn} ctrl={showBuf w.ctrlBuf cn}"])
       | ["valid?"] => (s, [s!"v={w.validity}"])
       | ["invalidate"] => ({ s with ws := some { w with validity := 0 } }, ["ok"])
       | _ => bad
